@@ -305,11 +305,20 @@ pub mod thread {
     /// modelled by loom). Carries a liveness id like the facade atomics.
     pub struct Thread {
         live: u64,
+        /// Conflict object: `clone` loads it, `drop` stores to it, so that the
+        /// explorer orders a handle's destruction against every concurrent
+        /// attempt to clone it (the pool's task block lives on the caller's
+        /// stack and dies when `broadcast` returns).
+        sched: Arc<loom::sync::atomic::AtomicUsize>,
         notify: Arc<loom::sync::Notify>,
         id: ThreadId,
     }
 
     impl Thread {
+        fn new(notify: Arc<loom::sync::Notify>, id: ThreadId) -> Self {
+            Thread { live: live::register(), sched: Arc::new(loom::sync::atomic::AtomicUsize::new(0)), notify, id }
+        }
+
         #[inline]
         fn check(&self, what: &str) {
             let id = unsafe { ::std::ptr::read_volatile(&self.live) };
@@ -329,21 +338,30 @@ pub mod thread {
     }
 
     impl Clone for Thread {
+        #[track_caller]
         fn clone(&self) -> Self {
-            self.check("Thread::clone");
-            Thread { live: live::register(), notify: self.notify.clone(), id: self.id }
+            // Alive when we start ...
+            let id = unsafe { ::std::ptr::read_volatile(&self.live) };
+            live::check(id, "Thread::clone");
+            // ... a scheduling point that conflicts with the handle's destruction ...
+            let sched = self.sched.clone();
+            sched.load(::std::sync::atomic::Ordering::Acquire);
+            // ... and still alive while its fields are being read.
+            live::check(id, "Thread::clone (the handle was destroyed while it was being cloned)");
+            Thread::new(self.notify.clone(), self.id)
         }
     }
 
     impl Drop for Thread {
         fn drop(&mut self) {
+            self.sched.store(1, ::std::sync::atomic::Ordering::Release);
             live::kill(self.live);
             unsafe { ::std::ptr::write_volatile(&mut self.live, live::POISON) };
         }
     }
 
     pub fn current() -> Thread {
-        ME.with(|me| Thread { live: live::register(), notify: me.notify.clone(), id: me.id })
+        ME.with(|me| Thread::new(me.notify.clone(), me.id))
     }
 
     #[track_caller]
